@@ -84,6 +84,7 @@ def elemVarOK (ft : Feat) (Γ : Ctx) (m : XmlMeta) (ci : ClassInfo) (v : XmlVar)
 def metaOK (ft : Feat) (Γ : Ctx) (ci : ClassInfo) (m : XmlMeta) : Bool :=
   decide (m.clazz = ci.id) && (!m.nillable || ft.nillable) && !m.qname.isEmpty &&
   m.wildcards.isEmpty && m.choices.isEmpty && m.anyAttributes.isEmpty &&
+  decide (m.findAttribute xsiNil = none) &&
   -- every announced wrapper is the wrapper of an element var
   m.wrappers.all (fun ww => m.elementVars.any (fun v => decide (v.wrapperQName = some ww.1))) &&
   m.attributeVars.all (attrVarOK ft m ci) &&
